@@ -56,9 +56,10 @@ func seqEnum(k, maxLen int, visit func(idx []int) bool) {
 // Microsoft SST (serialized certificate store)
 
 type sstKind struct {
-	name string
-	huge bool // declares ≥ 2 GiB: expected to exhaust the worker's address space
-	enc  func(cert []byte) []byte
+	name     string
+	swallows bool // declares more bytes than the file holds: the reader runs into EOF, so it only makes sense as LAST entry
+	huge     bool // declares ≥ 2 GiB: expected to exhaust the worker's address space
+	enc      func(cert []byte) []byte
 }
 
 func sstEntry(id, format, declared uint32, value []byte) []byte {
@@ -68,35 +69,41 @@ func sstEntry(id, format, declared uint32, value []byte) []byte {
 func sstKinds() []sstKind {
 	bad := []byte{0x30, 0x03, 0x02, 0x01}
 	return []sstKind{
-		{"prop", false, func(c []byte) []byte { return sstEntry(3, 1, 4, []byte{1, 2, 3, 4}) }},
-		{"cert", false, func(c []byte) []byte { return sstEntry(32, 1, uint32(len(c)), c) }},
-		{"cert-unparseable", false, func(c []byte) []byte { return sstEntry(32, 1, uint32(len(bad)), bad) }},
-		{"cert-len0", false, func(c []byte) []byte { return sstEntry(32, 1, 0, nil) }},
-		{"cert-len+1", false, func(c []byte) []byte { return sstEntry(32, 1, uint32(len(c)+1), c) }},
-		{"cert-format2", false, func(c []byte) []byte { return sstEntry(32, 2, uint32(len(c)), c) }},
-		{"prop-len-2^32-1", false, func(c []byte) []byte { return sstEntry(3, 1, 0xffffffff, []byte{1}) }},
-		{"cert-len-2^20", false, func(c []byte) []byte { return sstEntry(32, 1, 1<<20, c) }},
-		{"cert-len-2^27", false, func(c []byte) []byte { return sstEntry(32, 1, 1<<27, c) }},
-		{"cert-len-2^31", true, func(c []byte) []byte { return sstEntry(32, 1, 1<<31, c) }},
-		{"cert-len-2^32-1", true, func(c []byte) []byte { return sstEntry(32, 1, 0xffffffff, c) }},
+		{"prop", false, false, func(c []byte) []byte { return sstEntry(3, 1, 4, []byte{1, 2, 3, 4}) }},
+		{"cert", false, false, func(c []byte) []byte { return sstEntry(32, 1, uint32(len(c)), c) }},
+		{"cert-unparseable", false, false, func(c []byte) []byte { return sstEntry(32, 1, uint32(len(bad)), bad) }},
+		{"cert-len0", false, false, func(c []byte) []byte { return sstEntry(32, 1, 0, nil) }},
+		{"cert-format2", false, false, func(c []byte) []byte { return sstEntry(32, 2, uint32(len(c)), c) }},
+		{"cert-len+1", true, false, func(c []byte) []byte { return sstEntry(32, 1, uint32(len(c)+1), c) }},
+		{"prop-len-2^32-1", true, false, func(c []byte) []byte { return sstEntry(3, 1, 0xffffffff, []byte{1}) }},
+		{"cert-len-2^20", true, false, func(c []byte) []byte { return sstEntry(32, 1, 1<<20, c) }},
+		{"cert-len-2^26", true, false, func(c []byte) []byte { return sstEntry(32, 1, 1<<26, c) }},
+		{"cert-len-2^31", true, true, func(c []byte) []byte { return sstEntry(32, 1, 1<<31, c) }},
+		{"cert-len-2^32-1", true, true, func(c []byte) []byte { return sstEntry(32, 1, 0xffffffff, c) }},
 	}
 }
 
-// sstModel enumerates entry lists of length ≤ maxLen × {end marker, none}.
-// huge selects the lists that contain at least one ≥ 2 GiB declaration (they
-// are kept in a separate unit because each of them may cost a worker).
+// sstModel enumerates entry lists: a prefix of ≤ maxLen entries whose declared
+// length is honest, optionally followed by ONE entry that declares more bytes
+// than follow (after it the reader is at EOF, so nothing behind it is ever
+// looked at), × {end marker, none}. huge selects the lists with a ≥ 2 GiB
+// declaration: they are kept in a separate unit because each of them may cost
+// a worker process.
 func sstModel(cert []byte, maxLen int, huge bool) xgen.Enum {
 	kinds := sstKinds()
+	var honest, swallow []int
+	for i, k := range kinds {
+		if k.swallows {
+			swallow = append(swallow, i)
+		} else {
+			honest = append(honest, i)
+		}
+	}
 	return func(visit func(string, []byte) bool) {
-		seqEnum(len(kinds), maxLen, func(idx []int) bool {
-			h := false
+		emit := func(idx []int) bool {
 			names := make([]string, len(idx))
 			for i, k := range idx {
-				h = h || kinds[k].huge
 				names[i] = kinds[k].name
-			}
-			if h != huge {
-				return true
 			}
 			for _, end := range []bool{true, false} {
 				b := append(le32(0), []byte("CERT")...)
@@ -109,6 +116,27 @@ func sstModel(cert []byte, maxLen int, huge bool) xgen.Enum {
 					d += "+end"
 				}
 				if !visit(d, b) {
+					return false
+				}
+			}
+			return true
+		}
+		seqEnum(len(honest), maxLen, func(pi []int) bool {
+			prefix := make([]int, len(pi))
+			for i, k := range pi {
+				prefix[i] = honest[k]
+			}
+			if !huge && !emit(prefix) {
+				return false
+			}
+			if len(prefix) == maxLen {
+				return true
+			}
+			for _, sw := range swallow {
+				if kinds[sw].huge != huge {
+					continue
+				}
+				if !emit(append(append([]int(nil), prefix...), sw)) {
 					return false
 				}
 			}
@@ -391,6 +419,10 @@ func rsaCases() xgen.Enum {
 	if err != nil {
 		panic(err)
 	}
+	validPSS, err := stdrsa.SignPSS(fx.NewRand("c01-pss"), priv, crypto.SHA256, zero32, &stdrsa.PSSOptions{SaltLength: stdrsa.PSSSaltLengthEqualsHash})
+	if err != nil {
+		panic(err)
+	}
 	hashes := []struct {
 		name string
 		h    crypto.Hash
@@ -413,7 +445,7 @@ func rsaCases() xgen.Enum {
 				name string
 				b    []byte
 			}{{"zeros(k)", fill(k, 0)}, {"ff(k)", fill(k, 0xff)}, {"=|N|", new(big.Int).Abs(n.v).Bytes()}, {"empty", nil},
-				{"00", []byte{0}}, {"01", []byte{1}}, {"valid-for-N", valid}, {"zeros(k+1)", fill(k+1, 0)}}
+				{"00", []byte{0}}, {"01", []byte{1}}, {"valid-for-N", valid}, {"valid-pss-for-N", validPSS}, {"zeros(k+1)", fill(k+1, 0)}}
 			for _, e := range es {
 				for _, s := range sigs {
 					for _, h := range hashes {
@@ -442,28 +474,30 @@ func asn1Primitives() map[string][]byte {
 		xgen.Set(xgen.Int(1), xgen.Int(2)), xgen.Ctx(2, false, nil), xgen.TLV(0x0a, []byte{3}),
 		xgen.TimeRaw(0x18, "20260115120000Z"), xgen.Ctx(3, false, []byte{0, 0xff}))
 	return map[string][]byte{
-		"prim:int":          xgen.Int(300),
-		"prim:int-neg":      xgen.Int(-129),
-		"prim:bigint":       xgen.BigInt(new(big.Int).Lsh(big.NewInt(1), 70)),
-		"prim:bool":         xgen.Bool(true),
-		"prim:oid":          xgen.OID(1, 2, 840, 113549, 1, 1, 11),
-		"prim:oid-big-arc":  xgen.OID(2, 999, 1<<30),
-		"prim:bitstring":    xgen.BitStringUnused(3, []byte{0xa8}),
-		"prim:octets":       xgen.OctetString([]byte{1, 2, 3}),
-		"prim:utf8":         xgen.UTF8("héllo"),
-		"prim:printable":    xgen.Printable("Hello World"),
-		"prim:ia5":          xgen.IA5("a@example"),
-		"prim:bmp":          xgen.BMP([]byte{0, 'h', 0, 'i'}),
-		"prim:utctime":      xgen.TimeRaw(0x17, "260115120000Z"),
-		"prim:gentime":      xgen.TimeRaw(0x18, "20260115120000Z"),
-		"prim:null":         xgen.Null(),
-		"prim:enum":         xgen.TLV(0x0a, []byte{2}),
-		"prim:high-tag":     []byte{0x5f, 0x21, 0x01, 0x00},
-		"prim:name":         name,
-		"prim:extensions":   exts,
-		"prim:tagged":       tagged,
-		"prim:ctx0-int":     xgen.Explicit(0, xgen.Int(9)),
-		"prim:ctx1-octets":  xgen.Explicit(1, xgen.OctetString([]byte{4, 5})),
+		"prim:int":           xgen.Int(300),
+		"prim:int-neg":       xgen.Int(-129),
+		"prim:bigint":        xgen.BigInt(new(big.Int).Lsh(big.NewInt(1), 70)),
+		"prim:bool":          xgen.Bool(true),
+		"prim:oid":           xgen.OID(1, 2, 840, 113549, 1, 1, 11),
+		"prim:oid-big-arc":   xgen.OID(2, 999, 1<<30),
+		"prim:bitstring":     xgen.BitStringUnused(3, []byte{0xa8}),
+		"prim:octets":        xgen.OctetString([]byte{1, 2, 3}),
+		"prim:utf8":          xgen.UTF8("héllo"),
+		"prim:printable":     xgen.Printable("Hello World"),
+		"prim:ia5":           xgen.IA5("a@example"),
+		"prim:bmp":           xgen.BMP([]byte{0, 'h', 0, 'i'}),
+		"prim:utctime":       xgen.TimeRaw(0x17, "260115120000Z"),
+		"prim:gentime":       xgen.TimeRaw(0x18, "20260115120000Z"),
+		"prim:null":          xgen.Null(),
+		"prim:enum":          xgen.TLV(0x0a, []byte{2}),
+		"prim:high-tag":      []byte{0x5f, 0x21, 0x01, 0x00},
+		"prim:name":          name,
+		"prim:extensions":    exts,
+		"prim:tagged":        tagged,
+		"prim:explicit-only": xgen.Seq(xgen.Explicit(0, xgen.Int(5))),
+		"prim:explicit-both": xgen.Seq(xgen.Explicit(0, xgen.Int(5)), xgen.Explicit(1, xgen.OctetString([]byte{1, 2}))),
+		"prim:ctx0-int":      xgen.Explicit(0, xgen.Int(9)),
+		"prim:ctx1-octets":   xgen.Explicit(1, xgen.OctetString([]byte{4, 5})),
 		"prim:long-form-len": xgen.OctetString(make([]byte, 200)),
 	}
 }
